@@ -99,7 +99,7 @@ PLAN = {
     },
     "C05": {
         "level": "fault_enumeration",
-        "engines": lambda tier: [_e("release", "faultmc", "c05"), _e("release", "faultmc", "c05giant"), _e("release", "faultmc", "c05sweep")],
+        "engines": lambda tier: [_e("release", "faultmc", "c05"), dict(_e("release", "faultmc", "c05giant"), side=True), dict(_e("release", "faultmc", "c05sweep"), side=True)],
         "assumptions": [
             "the structural dump is what the public reader API returns (pack infos, index headers, every entry's variant and values, content sizes, content hashes)",
             "a node absent from the altered dump is accepted only because counts/lengths are always dumped next to it",
@@ -108,7 +108,7 @@ PLAN = {
     },
     "C06": {
         "level": "fault_enumeration",
-        "engines": lambda tier: [_e("release", "faultmc", "c06"), _e("dev", "faultmc", "c06"), _e("release", "faultmc", "c06sweep"), _e("dev", "faultmc", "c06sweep")],
+        "engines": lambda tier: [_e("release", "faultmc", "c06"), _e("dev", "faultmc", "c06"), dict(_e("release", "faultmc", "c06sweep"), side=True), dict(_e("dev", "faultmc", "c06sweep"), side=True)],
         "assumptions": [
             "hang detection is wall-clock based: 10 s without an answer (typical case: a few ms), confirmed alone with 30 s",
             "each case runs in a worker process; process death is attributed to the case in flight",
